@@ -70,6 +70,18 @@ CHECKS = {
         design_ref="6.16",
         note=LEVEL_NOTE_COMMON + " The producer NNDescent._init_search_graph (scipy coo/csr/transpose/maximum/setdiag) is validated per run by the proved checker, not verified as an algorithm.",
     ),
+    "C14": dict(
+        technique="Coq proof (builder partitions for any partitioning split; euclidean split is a partition; descent of a well-formed flat tree terminates with a valid range for all side decisions) + Coq-proved checkers (reflective) executed on every observed linked/flat tree + node-for-node exact correspondence of euclidean trees on integer data",
+        text=("Theorems in coq/props/C14.v: the depth-bounded builder shared by all make_*_tree functions terminates structurally and its leaves "
+              "hold each input point exactly once for ANY split that returns a partition; the euclidean split (pivots, hyperplane, coin flips, "
+              "all-random fallback) is such a partition for every dataset and generator state; routing any query down a well-formed flat tree "
+              "reaches a leaf within n_nodes steps with 0<=start<=end<=n; flat_chk / linked_chk accept only trees whose indices are a "
+              "permutation, whose leaves tile the list in pre-order (first leaf start 0 included), whose leaves respect leaf_size unless at the "
+              "depth limit. Euclidean trees on integer data (degenerate data included) equal the model node for node, generator state, flat "
+              "form and leaf array included; all five split kinds are run through the extracted checkers."),
+        design_ref="6.14",
+        note=LEVEL_NOTE_COMMON + " Angular, bit-packed and sparse splits are not modelled concretely (float normalisation): generic builder theorem + per-run proved checkers. recursive_convert is modelled and compared exactly; its general correctness is established per tree by flat_chk, not by a once-for-all proof.",
+    ),
 }
 
 REASON_PENDING = "check not built yet in this round (design in DESIGN.md section 6; no claim is made until the check exists)"
